@@ -138,7 +138,9 @@ void run_queue(hx::Desc& d) {
         if (sim::draw_bool("fault_kind")) faults.throw_at = (int)sim::draw_range(1, 12, "throw_at");
         else faults.alloc_fail_at = (int)sim::draw_range(1, 6, "alloc_at");
     }
-    const char* mode_name = do_abort ? "abort" : mode == 2 ? (faults.alloc_fail_at ? "alloc" : "throw") : "strict";
+    // (the recorded findings about a throwing element constructor concern concurrent_bounded_queue only: the unbounded
+    //  queue gets its own mode name, so that a failure there is not attributed to them)
+    const char* mode_name = do_abort ? "abort" : mode == 2 ? (faults.alloc_fail_at ? "alloc" : Bounded ? "throw" : "throw-unbounded") : "strict";
     sim::set_tag("mode=%s", mode_name);
     bool coordinator_aborted = false;
     std::vector<std::vector<Plan>> plan(nthreads);
